@@ -113,16 +113,55 @@ func lenGuardOf(p *Program, fn *ssa.Function, memo map[*ssa.Function]lenGuard) l
 		call, ok := stripAllConv(v).(*ssa.Call)
 		return ok && builtinName(call) == "len" && unspill(call.Common().Args[0]) == ssa.Value(data)
 	}
+	// lenPlus: v is len(data) + c (c constant, possibly negative), in a type that does not wrap for lengths
+	var lenPlus func(v ssa.Value, depth int) (int64, bool)
+	lenPlus = func(v ssa.Value, depth int) (int64, bool) {
+		if isLen(v) {
+			return 0, true
+		}
+		if depth > 4 {
+			return 0, false
+		}
+		bo, ok := stripAllConv(v).(*ssa.BinOp)
+		if !ok || !wideInt(bo.Type()) {
+			return 0, false
+		}
+		if _, signed, _ := typeWidth(bo.Type(), "386"); !signed {
+			return 0, false // len(data)-1 in an unsigned type wraps for the empty payload
+		}
+		switch bo.Op {
+		case token.ADD:
+			if k, isK := constInt(bo.Y); isK {
+				if c, ok := lenPlus(bo.X, depth+1); ok {
+					return c + k, true
+				}
+			}
+			if k, isK := constInt(bo.X); isK {
+				if c, ok := lenPlus(bo.Y, depth+1); ok {
+					return c + k, true
+				}
+			}
+		case token.SUB:
+			if k, isK := constInt(bo.Y); isK {
+				if c, ok := lenPlus(bo.X, depth+1); ok {
+					return c - k, true
+				}
+			}
+		}
+		return 0, false
+	}
 	direct := func(b *ssa.BasicBlock) (lenGuard, bool) {
 		for _, f := range factsAt(b) {
 			x, y, op := f.X, f.Y, f.Op
-			if !isLen(x) {
+			if _, ok := lenPlus(x, 0); !ok {
 				x, y, op = y, x, swapOp(op)
 			}
 			k, isK := constInt(y)
-			if !isLen(x) || !isK {
+			c0, isL := lenPlus(x, 0)
+			if !isL || !isK {
 				continue
 			}
+			k -= c0 // len(data) + c0 op k  <=>  len(data) op k - c0
 			switch op {
 			case token.EQL:
 				return lenGuard{L: k, Kind: "eq", OK: true}, true
@@ -253,6 +292,29 @@ func sameNumeric(a, b ssa.Value) bool {
 		if loadedField(ua) != nil && loadedField(ua) == loadedField(ub) {
 			return true
 		}
+		// loads of the same element of a slice that this function never writes (r := []rune(d); r[i] ... r[i])
+		ia, okA2 := ua.X.(*ssa.IndexAddr)
+		ib, okB2 := ub.X.(*ssa.IndexAddr)
+		if okA2 && okB2 && ia.X == ib.X && ia.Index == ib.Index && ua.Parent() != nil {
+			written := false
+			instrsOf(ua.Parent(), func(in ssa.Instruction) {
+				if st, ok := in.(*ssa.Store); ok {
+					if sa, ok := st.Addr.(*ssa.IndexAddr); ok && sa.X == ia.X {
+						written = true
+					}
+				}
+				if call, ok := in.(*ssa.Call); ok {
+					for _, arg := range call.Common().Args {
+						if arg == ia.X && builtinName(call) != "len" && builtinName(call) != "cap" {
+							written = true
+						}
+					}
+				}
+			})
+			if !written {
+				return true
+			}
+		}
 	}
 	if fa, ok := a.(*ssa.Field); ok {
 		if fb, ok := b.(*ssa.Field); ok && fa.Field == fb.Field && sameNumeric(fa.X, fb.X) {
@@ -339,9 +401,10 @@ func numInterval(v ssa.Value, b *ssa.BasicBlock, depth int) fiv {
 		if !isK || !sameNumeric(x, v) {
 			continue
 		}
-		isF32 := false
-		if bt, ok := v.Type().Underlying().(*types.Basic); ok && bt.Kind() == types.Float32 {
-			isF32 = true
+		isF32, isInt := false, false
+		if bt, ok := v.Type().Underlying().(*types.Basic); ok {
+			isF32 = bt.Kind() == types.Float32
+			isInt = bt.Info()&types.IsInteger != 0
 		}
 		switch op {
 		case token.GEQ:
@@ -350,12 +413,18 @@ func numInterval(v ssa.Value, b *ssa.BasicBlock, depth int) fiv {
 			if isF32 {
 				k = float64(math.Nextafter32(float32(k), float32(math.Inf(1))))
 			}
+			if isInt {
+				k = math.Floor(k) + 1 // strict comparison of an integer
+			}
 			tighten(fiv{k, math.Inf(1)})
 		case token.LEQ:
 			tighten(fiv{math.Inf(-1), k})
 		case token.LSS:
 			if isF32 {
 				k = float64(math.Nextafter32(float32(k), float32(math.Inf(-1))))
+			}
+			if isInt {
+				k = math.Ceil(k) - 1
 			}
 			tighten(fiv{math.Inf(-1), k})
 		case token.EQL:
